@@ -16,7 +16,7 @@ SEED = os.path.join(VERIF, "seeded")
 ALSO = {"C01-2": ["C04"], "C14-2": ["C18"], "C17-3": ["C06"], "C01-6": ["C04"], "C01-7": ["C08"], "C14-4": ["C03"], "C18-7": ["C19"], "C20-6": ["C01", "C16"]}
 
 THOROUGH = set()
-SEEDS = {"C04-7": "3"}     # the quick tier rotates the twin workspace by seed: evalOrder's examples are in rotation 3
+SEEDS = {}
 
 
 def main():
